@@ -221,8 +221,9 @@ def minimise(check, viol, budget_s=25.0, max_replays=400):
 
 # --------------------------------------------------------------------- replay
 def write_replay(check, viol, trace, directory="replays"):
-    os.makedirs(os.path.join(VERIF, directory), exist_ok=True)
-    path = os.path.join(VERIF, directory, f"{check.ID}-{viol['seed']}.json")
+    base = os.environ.get("SIMFIX_REPLAY_DIR") or os.path.join(VERIF, directory)
+    os.makedirs(base, exist_ok=True)
+    path = os.path.join(base, f"{check.ID}-{viol['seed']}.json")
     r = check.replay(viol["config"], trace)
     v = r.get("violation") or {}
     obj = dict(
@@ -447,8 +448,9 @@ def write_evidence(check, tier, base_seed, agg, t0, known, viol_reports, n_regre
         wall_s=round(wall, 2),
         violations=len(viol_reports),
     )
-    os.makedirs(os.path.join(VERIF, "evidence"), exist_ok=True)
-    path = os.path.join(VERIF, "evidence", f"{check.ID}.json")
+    evdir = os.environ.get("SIMFIX_EVIDENCE_DIR") or os.path.join(VERIF, "evidence")
+    os.makedirs(evdir, exist_ok=True)
+    path = os.path.join(evdir, f"{check.ID}.json")
     tmp = path + ".tmp"
     with open(tmp, "w") as f:
         json.dump(ev, f, indent=1, default=str)
